@@ -299,7 +299,7 @@ pub struct Desc {
 
 fn num(x: f64) -> Value {
   // integral values are written as JSON integers now and then (as in the crate's own examples)
-  if x.fract() == 0.0 && x.abs() < 1e15 && (x.to_bits() >> 3) & 1 == 0 {
+  if x.fract() == 0.0 && x.abs() < 1e15 && (x.to_bits() >> 3) & 1 == 0 && !(x == 0.0 && x.is_sign_negative()) {
     json!(x as i64)
   } else {
     json!(x)
@@ -957,7 +957,12 @@ fn setup_finite(s: &SPDC) -> Result<(), String> {
         bad.push("period-finite-when-off".into());
       }
     }
-    PeriodicPoling::On { .. } => chk("poling_period", per),
+    PeriodicPoling::On { period, .. } => {
+      chk("poling_period", per);
+      if !(period.value_unsafe > 0.0) {
+        bad.push(format!("poling_period_not_positive={:e}", period.value_unsafe));
+      }
+    }
   }
   if bad.is_empty() {
     Ok(())
@@ -1483,6 +1488,12 @@ fn c17_case(ctx: &mut Ctx, d: &Desc, tag: &str, spectra: bool) {
       }
     }
   }
+  // an automatically determined period phase-matches within the crystal length, else it is an error
+  if let (Some(Ok(s)), PolingD::Cfg { period: AutoV::Auto, .. }) = (&run.outcome, &d.poling) {
+    let period = s.pp.signed_period().value_unsafe.abs();
+    let len = s.crystal_setup.length.value_unsafe;
+    ctx.s("C17.listed", period.is_finite() && period <= len, "listed/period-within-length", &format!("period={:e} length={:e} {}", period, len, det));
+  }
   // the listed errors
   let is_err = matches!(run.outcome, Some(Err(_)));
   let sig_angles_bad = d.signal.theta.is_some() == d.signal.theta_e.is_some();
@@ -1591,6 +1602,77 @@ pub fn run(ctx: &mut Ctx) {
     for k in 0..ctx.n / 2 {
       let d = gen_valid(&mut ctx.rng);
       c17_case(ctx, &d, "none", k < nspec / 2);
+    }
+    // both signal angles given, on boundary VALUES of either angle (and neither), x auto/explicit
+    // crystal angle x poling; the same pairs on an explicit idler
+    let internals = [0.0, -0.0, 1e-300, 1e-9, -1e-9, 1.0, -5.0, 90.0, 400.0, -400.0];
+    let externals = [0.0, -0.0, 1e-9, 3.0, -3.0, 89.9999, 400.0, -400.0];
+    let npairs = if ctx.thorough { 4 } else { 1 };
+    for _ in 0..npairs {
+      for ti in internals.iter() {
+        for te in externals.iter() {
+          let mut d = gen_valid(&mut ctx.rng);
+          d.signal.theta = Some(*ti);
+          d.signal.theta_e = Some(*te);
+          match ctx.rng.below(4) {
+            0 => {
+              d.c_theta = AutoV::Auto;
+              d.poling = PolingD::Absent;
+            }
+            1 => {
+              d.c_theta = AutoV::Val(33.0);
+              d.poling = PolingD::Cfg { period: AutoV::Auto, apod: None };
+            }
+            _ => {}
+          }
+          c17_case(ctx, &d, "both-angles-grid", false);
+          // the idler's pair
+          if ctx.rng.below(3) == 0 {
+            let mut e = gen_valid(&mut ctx.rng);
+            let i_wl = e.signal.wl * e.p_wl / (e.signal.wl - e.p_wl);
+            e.idler = IdlerD::Cfg(BeamD { wl: (i_wl * 100.).round() / 100., phi: None, theta: Some(*ti), theta_e: Some(*te), waist: 100., wpos: AutoV::Absent });
+            let run = run_desc(&e);
+            k_try(ctx, &e, &run);
+            ctx.s("C17.listed", matches!(run.outcome, Some(Err(_))), "listed/idler-angles", &format!("edits=idler-both-angles {}", detail(&e)));
+          }
+        }
+      }
+      let mut d = gen_valid(&mut ctx.rng);
+      d.signal.theta = None;
+      d.signal.theta_e = None;
+      c17_case(ctx, &d, "no-angle", false);
+    }
+    // two steps: the full-precision result of an "auto" crystal angle fed back explicitly together
+    // with an "auto" poling period (the crystal is then phase-matched without poling)
+    let uniaxial = [0usize, 3, 4, 5, 8, 9];
+    let nsteps = if ctx.thorough { 60 } else { 8 };
+    for _ in 0..nsteps {
+      let mut d = gen_valid(&mut ctx.rng);
+      d.kind = *ctx.rng.pick(&uniaxial);
+      let (wlo, whi) = WINDOWS_NM[d.kind];
+      d.p_wl = ((wlo.max(350.) + 0.3 * (whi / 2.0 - wlo.max(350.)).max(0.0) * ctx.rng.unit()) * 10.).round() / 10.;
+      d.signal.wl = 2.0 * d.p_wl;
+      d.pm = *ctx.rng.pick(&[2usize, 3, 4]);
+      d.pm_spelling = ["Type1_e_oo", "Type2_e_eo", "Type2_e_oe"][d.pm - 2].to_string();
+      d.signal.theta = Some(*ctx.rng.pick(&[0.0, 1.0, 3.0]));
+      d.signal.theta_e = None;
+      d.length = *ctx.rng.pick(&[500.0, 2000.0, 20000.0]);
+      d.c_theta = AutoV::Auto;
+      d.poling = PolingD::Absent;
+      d.idler = IdlerD::Auto;
+      d.cp = None;
+      let first = guard(|| SPDC::from_json(d.json().to_string()));
+      let theta_deg = match first {
+        Some(Ok(s)) => s.crystal_setup.theta.value_unsafe / DEG.value_unsafe,
+        _ => continue,
+      };
+      ctx.count("two-step/first-ok");
+      for off in [0.0, 1e-12, -1e-12, 1e-9, -1e-9, 1e-6, -1e-6] {
+        let mut e = d.clone();
+        e.c_theta = AutoV::Val(theta_deg + off);
+        e.poling = PolingD::Cfg { period: AutoV::Auto, apod: None };
+        c17_case(ctx, &e, "two-step-auto-angle-then-auto-period", false);
+      }
     }
     // short crystals with auto period
     for _ in 0..ctx.n / 4 {
